@@ -261,8 +261,12 @@ def gen_history(rng, n_ops=14):
             ops.append(["clear"])
         elif r < 0.86:
             ops.append(["reduce_all", rng.choice(["items", "bytes"])])
-        elif r < 0.93:
+        elif r < 0.90:
             ops.append(["advance", rng.choice([1.5, 50.5, 99.5, 100.5, 1000.5])])
+        elif r < 0.93 and calls:
+            # stored-byte fault: the result file of an earlier call is truncated (interrupted copy, bad sector); the next
+            # identical call recomputes ONCE and repairs the entry
+            ops.append(["damage", dict(rng.choice(calls)), rng.choice(["half", "empty", "minus1"])])
         else:
             ops.append(["fclear", rng.choice(funcs)["name"]])
     hist = {"funcs": funcs, "pool": pool, "ops": ops}
@@ -270,7 +274,7 @@ def gen_history(rng, n_ops=14):
         # the same functions cached at two store locations by the same processes
         hist["two_locations"] = True
         for op in ops:
-            if op[0] in ("call", "shelve", "check", "callcb"):
+            if op[0] in ("call", "shelve", "check", "callcb", "damage"):
                 op[1] = dict(op[1], loc=rng.choice([0, 0, 1]))
             elif op[0] in ("clear", "reduce_all", "fclear"):
                 op.append({"loc": rng.choice([0, 1])})
@@ -278,7 +282,7 @@ def gen_history(rng, n_ops=14):
 
 
 def _loc(op):
-    if op[0] in ("call", "shelve", "check", "callcb"):
+    if op[0] in ("call", "shelve", "check", "callcb", "damage"):
         return op[1].get("loc", 0)
     return op[-1]["loc"] if isinstance(op[-1], dict) and "loc" in op[-1] else 0
 
@@ -440,6 +444,19 @@ def session(root, hist, start, t0, compress):
                 get(op[1], False, _loc(op)).clear(warn=False)
             elif op[0] == "reduce_all":
                 mems[_loc(op)].reduce_size(**({"items_limit": 0} if op[1] == "items" else {"bytes_limit": 0}))
+            elif op[0] == "damage":
+                c = op[1]
+                args = [copy.deepcopy(vals[k]) for k in c["args"]]
+                kwargs = {k: copy.deepcopy(vals[v]) for k, v in c["kwargs"].items()}
+                f = get(c["fn"], False, c.get("loc", 0))
+                pth = os.path.join(f.store_backend.location, f.func_id, f._get_args_id(*args, **kwargs), "output.pkl")
+                rec["damaged"] = False
+                if os.path.exists(pth):
+                    data = open(pth, "rb").read()
+                    cut = {"half": len(data) // 2, "empty": 0, "minus1": max(len(data) - 1, 0)}[op[2]]
+                    with open(pth, "wb") as fh_:
+                        fh_.write(data[:cut])
+                    rec["damaged"] = True
             elif op[0] == "advance":
                 clock.now += op[1]
         except BaseException as e:  # noqa
@@ -476,6 +493,7 @@ def run_history(hist):
         ops = hist["ops"]
         live = {}            # key -> time stored
         store_partial = {}
+        damaged = set()
         t = 1.7e9
         compress = False
         i = 0
@@ -506,6 +524,12 @@ def run_history(hist):
                     stats["evictions"] += 1
                     continue
                 c = op[1]
+                if op[0] == "damage":
+                    if rec.get("damaged"):
+                        k_ = (c["fn"], repr(plain_value(umod, vals, c)), loc)
+                        if k_ in live:
+                            damaged.add(k_); stats["damaged_entries"] += 1
+                    continue
                 if loc:
                     stats["calls_at_second_location"] += 1
                 if c["fn"] in ("part", "part2", "part3"):
@@ -523,6 +547,23 @@ def run_history(hist):
                 if op[0] == "callcb" and key in live and not is_live:
                     del live[key]                   # joblib clears the expired entry
                 stats["calls"] += 1
+                if key in damaged and key in live:
+                    # a damaged entry: a plain call recomputes once and repairs it; what check_call_in_cache answers and
+                    # what a shelved reference does with the unreadable file is not part of the statement
+                    if op[0] in ("call", "callcb") and "exc" not in rec:
+                        if rec["value"] != want:
+                            findings.append(("C02", "wrong_value", "%s on a damaged entry returned %s, the plain function returns %s" % (
+                                describe(hist, c), repr(rec["value"])[:200], repr(want)[:200]), {"what": "wrong_value", "damaged_entry": True}))
+                        if rec["executed"] > 1:
+                            findings.append(("C06", "hit_miss_mismatch", "%s on a damaged entry: body executed %d times, expected at most 1" % (
+                                describe(hist, c), rec["executed"]), {"what": "hit_miss_mismatch", "executed": rec["executed"], "damaged_entry": True}))
+                        if rec["executed"]:          # recomputed: the entry is whole again (0: the damaged file still loads, e.g. a
+                            damaged.discard(key); live[key] = tcur      # compressed stream that only lost its check sum)
+                        continue
+                    if "exc" in rec and op[0] in ("call", "callcb"):
+                        findings.append(("C06", "valid_call_rejected", "%s on a damaged entry raised %s: %s" % (describe(hist, c), rec["exc"][0], rec["exc"][1]),
+                                         {"what": "valid_call_rejected", "exc": rec["exc"][0], "damaged_entry": True}))
+                    continue
                 if "exc" in rec:
                     findings.append(("C06", "valid_call_rejected", "%s(%s, %s) [%s] raised %s: %s at %s" % (
                         c["fn"], [_txt(hist, k) for k in c["args"]], {k: _txt(hist, v) for k, v in c["kwargs"].items()},
@@ -548,7 +589,7 @@ def run_history(hist):
                         describe(hist, c), sig_text(hist, c["fn"]), rec["executed"], exp_exec, "live" if is_live else "not live"),
                         {"what": "hit_miss_mismatch", "executed": rec["executed"], "shape": sig_shape(hist, c["fn"])}))
                 if not is_live:
-                    live[key] = tcur
+                    live[key] = tcur; damaged.discard(key)
             t = t_end
             i = nxt
         return findings, h.hexdigest()[:24], stats
